@@ -137,6 +137,10 @@ fn main() {
             }
             std::process::exit(if bad == 0 { 0 } else { 1 });
         }
+        Some("miri-e1") => {
+            let (a, b): (u64, u64) = (args[2].parse().unwrap(), args[3].parse().unwrap());
+            std::process::exit(if e1::miri_smoke(a, b) == 0 { 0 } else { 1 });
+        }
         Some("scenario") => {
             // nvsim scenario <engine> <variant> <run_seed>
             let e = engines();
